@@ -236,11 +236,21 @@ pub fn c15_case() -> impl Strategy<Value = HybCase> {
             cfg.flushers = cfg.flushers.min(2);
             cfg.clean_block_threshold = 1;
             cfg.mem_capacity = mem;
-            cfg.buffer_pool_size = if tight { cfg.flushers * 24 * 4096 } else { cfg.flushers * 16 * cfg.block_size };
+            cfg.buffer_pool_size = if tight { cfg.flushers * 16 * 4096 } else { cfg.flushers * 16 * cfg.block_size };
+            let mut ops = vec![];
             if tight {
-                cfg.mem_capacity = mem.min(60_000);
+                // memory holds six two-page entries (48 KiB <= the 64 KiB buffer); first a backlog of the same size is
+                // built (inserted, evicted, unwritten because io is held), then memory is filled again
+                cfg.mem_capacity = 60_000;
+                for k in 0..6u8 {
+                    ops.push(HOp::Insert { k, sz: Sz::PageEdge { pages: 2, delta: -1 }, loc: Loc::Default, hold: false, compressible: false });
+                }
+                ops.push(HOp::MemEvictAll);
+                for k in 0..6u8 {
+                    ops.push(HOp::Insert { k, sz: Sz::PageEdge { pages: 2, delta: -1 }, loc: Loc::Default, hold: false, compressible: false });
+                }
             }
-            let mut ops = pre;
+            ops.extend(pre);
             ops.push(HOp::SnapshotMem);
             if no_close {
                 ops.push(HOp::ReopenNoClose);
@@ -287,7 +297,7 @@ pub fn exec_c15(case: &HybCase) -> CaseReport {
     cls!(f.no_close_variant, "drop-without-close");
     cls!(case.ops.iter().any(|o| matches!(o, HOp::CloseCrashReopen)), "process-dies-when-close-returns");
     cls!(case.cfg.hold_io, "held-io");
-    cls!(case.cfg.buffer_pool_size / case.cfg.flushers <= 24 * 4096, "tight-flush-buffer+backlog");
+    cls!(case.cfg.buffer_pool_size / case.cfg.flushers <= 16 * 4096, "tight-flush-buffer+backlog");
     cls!(f.reclaim_happened, "reclaim-happened(proviso)");
     let nontrivial = f.resident_with_older_disk_copy || f.inmem_resident_at_close || f.second_close;
     split_known("C15", failures, nontrivial, classes, false)
